@@ -49,7 +49,27 @@ class _InfoHelper(Contract):
             st.ident = SymObj(st.kind, fusion_id=SymObj('FusionId19'), first_variants=[], second_variants=[], peptide_variants=[], orf_id=None, index=1)
         else:
             st.ident = SymObj(st.kind, transcript_id=st.tx, gene_id=SymObj('GeneName'), codon_reassigns=[], orf_id=SymObj('Orf'), index=1, is_protein_coding=False)
-        st.label = SymObj('Label19')
+        # the label text itself: it starts with FUSION- for a fusion entry, with CIRC- or CI- for a circRNA entry, with none of them otherwise
+        st.is_ci = e.bool('circ_backbone_is_a_circular_intron')
+        c = self
+
+        class LabelText:
+            def sym_method(s_, I2, name, a, k):
+                if name == 'startswith' and len(a) == 1 and isinstance(a[0], (str, tuple)):
+                    def one(p):
+                        if p == 'FUSION-':
+                            return z3.BoolVal(st.kind.startswith('Fusion'))
+                        if p == 'CIRC-':
+                            return z3.And(z3.BoolVal(st.kind.startswith('Circ')), z3.Not(st.is_ci))
+                        if p == 'CI-':
+                            return z3.And(z3.BoolVal(st.kind.startswith('Circ')), st.is_ci)
+                        if p in ('FUSION', 'CIRC', 'CI'):
+                            return one(p + '-') if p != 'CI' else z3.BoolVal(st.kind.startswith('Circ'))
+                        raise Unsupported(f'label.startswith({p!r})')
+                    ps = a[0] if isinstance(a[0], tuple) else (a[0],)
+                    return z3.Or(*[one(p) for p in ps])
+                raise Unsupported(f'label.{name}')
+        st.label = LabelText()
         st.args = [SymObj('VariantPeptideInfo', original_label=st.label)]
         self._cur = st
         return st
@@ -215,6 +235,12 @@ class LoadExpressionTable(Contract):
         st.args = [st.handle, st.tx_col, st.q_col, st.delim]
         self._cur = st
         return st
+
+    @property
+    def models(self):
+        def inst(reg):
+            reg.int_hooks.append(lambda v: (lambda I, v: SymObj('TruncatedFloat', of=v)) if isinstance(v, SymObj) and v.cls == 'FloatOfCell' else None)
+        return (inst,)
 
     def havoc(self, I, env, k):
         c = self
